@@ -2,11 +2,12 @@
 From Coq Require Import List NArith ZArith Bool.
 From RopeVerif.Lib Require Import Text.
 From RopeVerif.C12 Require Import Serializer SerializerProofs.
+Import ListNotations.
 
-(* Every value the data serializer accepts decodes, after the trip through JSON, to an equal value of
-   the same type: equality is Leibniz equality on [pyval], whose constructors are the Python types
-   (PBool is bool, PInt is int, PTuple is tuple, PList is list). For every digit predicate that
-   contains the ASCII digits (str.isdigit does), and both serializer versions. *)
+(* Every value the data serializer accepts decodes to an equal value of the same type: equality is
+   Leibniz equality on [pyval], whose constructors are the Python types (PBool is bool, PInt is int,
+   PTuple is tuple, PList is list). For every digit predicate that contains the ASCII digits
+   (str.isdigit does), and both serializer versions; unbounded in size and nesting. *)
 Theorem C12_serializer_roundtrip :
   forall (isdig : N -> bool) (ver : N),
     (forall c, is_ascii_digit c = true -> isdig c = true) ->
@@ -17,3 +18,122 @@ Theorem C12_serializer_roundtrip :
       json_to_python isdig ver data refs = Some v.
 Proof. exact serializer_roundtrip. Qed.
 Print Assumptions C12_serializer_roundtrip.
+
+(* The trip through JSON text (json.dumps then json.loads: objects lose repeated keys) is the identity
+   on the encoder's output: no object the encoder builds has two equal keys. *)
+Theorem C12_json_text_identity :
+  forall (isdig : N -> bool) (ver : N),
+    (forall c, is_ascii_digit c = true -> isdig c = true) ->
+    forall v data refs,
+      wf_py v = true ->
+      python_to_json isdig ver v = Some (data, refs) ->
+      json_rt data = data /\ map json_rt refs = refs.
+Proof. exact json_text_roundtrip_id. Qed.
+Print Assumptions C12_json_text_identity.
+
+(* The serializer accepts every well-formed value (dict keys hashable, pairwise unequal as Python
+   compares them, none equal to "$"). *)
+Theorem C12_encoder_total :
+  forall (isdig : N -> bool) (ver : N),
+    (ver = 1%N \/ ver = 2%N) ->
+    forall v, wf_py v = true -> exists data refs, python_to_json isdig ver v = Some (data, refs).
+Proof. exact encoder_total. Qed.
+Print Assumptions C12_encoder_total.
+
+(* The three together: the statement of the property for the serializer. *)
+Theorem C12_roundtrip_through_json_text :
+  forall (isdig : N -> bool) (ver : N),
+    (forall c, is_ascii_digit c = true -> isdig c = true) ->
+    (ver = 1%N \/ ver = 2%N) ->
+    forall v, wf_py v = true ->
+      exists data refs,
+        python_to_json isdig ver v = Some (data, refs) /\
+        json_to_python isdig ver (json_rt data) (map json_rt refs) = Some v.
+Proof.
+  exact (fun isdig ver Hd Hv v Hwf =>
+    match encoder_total isdig ver Hv v Hwf with
+    | ex_intro _ data (ex_intro _ refs E) =>
+        ex_intro _ data (ex_intro _ refs (conj E
+          (match json_text_roundtrip_id isdig ver Hd v data refs Hwf E with
+           | conj A B => eq_ind_r (fun d => json_to_python isdig ver d (map json_rt refs) = Some v)
+                           (eq_ind_r (fun r => json_to_python isdig ver data r = Some v)
+                              (serializer_roundtrip isdig ver Hd Hv v data refs Hwf E) B) A
+           end)))
+    end).
+Qed.
+Print Assumptions C12_roundtrip_through_json_text.
+
+(* Non-vacuity: a value with a tuple key, a digit-string key, an int key equal to it as a number, a bool
+   and None key, nested list/tuple/dict, is well-formed and takes the reference-table path. *)
+Example C12_example_nontrivial :
+  let isd := is_ascii_digit in
+  let v := PDict [ (PTuple [PInt 1; PStr [97%N]], PList [PTuple [PNone]; PDict [(PStr [49%N], PBool true)]]);
+                   (PStr [49%N; 50%N], PInt 7); (PInt 12, PStr []); (PBool false, PNone); (PNone, PTuple []) ] in
+  wf_py v = true /\
+  (exists d r, python_to_json isd 2 v = Some (d, r) /\ length r = 6) /\
+  json_to_python isd 1 (fst (match python_to_json isd 1 v with Some x => x | None => (JNull, []) end))
+                       (snd (match python_to_json isd 1 v with Some x => x | None => (JNull, []) end)) = Some v.
+Proof. exact (conj eq_refl (conj (ex_intro _ _ (ex_intro _ _ (conj eq_refl eq_refl))) eq_refl)). Qed.
+Print Assumptions C12_example_nontrivial.
+
+(* ------------------------------------------------------------------------------------------------
+   History persistence (ChangeToData / DataToChange, History.write / _load_history). *)
+From RopeVerif.C12 Require Import Persist PersistProofs.
+
+(* A change rebuilt from its saved data is the same change: class, paths, resource class (File or
+   Folder), contents, description, time, children in order — for every change tree. (Model variant
+   keep_kind = true, the code after commit "fix: keep folder-ness of a MoveResource ...".) *)
+Theorem C12_change_data_roundtrip : forall c, of_data true (to_data true c) = Some c.
+Proof. exact change_data_roundtrip. Qed.
+Print Assumptions C12_change_data_roundtrip.
+
+(* Before that fix the same holds only for changes without a folder move ... *)
+Theorem C12_change_data_roundtrip_legacy :
+  forall c, no_folder_move c = true -> of_data false (to_data false c) = Some c.
+Proof. exact change_data_roundtrip_legacy. Qed.
+Print Assumptions C12_change_data_roundtrip_legacy.
+
+(* ... and fails for a folder move (witness replayed on the implementation as corpus/C12/folder-move-reload.json). *)
+Theorem C12_folder_move_reload_refuted : exists c, of_data false (to_data false c) <> Some c.
+Proof. exact folder_move_reload_refuted. Qed.
+Print Assumptions C12_folder_move_reload_refuted.
+
+(* Closing and reopening yields the same undo and redo lists (same order and contents); the undo list
+   is the saved one trimmed to the configured limit, which is the identity when the limit was respected. *)
+Theorem C12_reopen_lists :
+  forall limit h, length (undo_list h) <= limit -> reopen true (close true limit h) = Some h.
+Proof. exact reopen_lists. Qed.
+Print Assumptions C12_reopen_lists.
+
+Theorem C12_reopen_trimmed :
+  forall limit h,
+    reopen true (close true limit h) =
+    Some {| undo_list := trim limit (undo_list h); redo_list := redo_list h |}.
+Proof. exact reopen_trimmed. Qed.
+Print Assumptions C12_reopen_trimmed.
+
+(* Saving again after a reopen writes the same data (close ∘ reopen ∘ close = close), either variant. *)
+Theorem C12_repeat :
+  forall keep limit h h', reopen keep (close keep limit h) = Some h' -> close keep limit h' = close keep limit h.
+Proof. exact close_reopen_close. Qed.
+Print Assumptions C12_repeat.
+
+(* Stored object information: ScopeInfo.__setstate__ (__getstate__ s) restores call_info and per_name. *)
+Theorem C12_scopeinfo_state :
+  forall (isdig : N -> bool), (forall c, is_ascii_digit c = true -> isdig c = true) ->
+  forall ci pn s, wf_py ci = true -> wf_py pn = true ->
+    getstate isdig ci pn = Some s -> setstate isdig s = Some (ci, pn).
+Proof. exact scopeinfo_state. Qed.
+Print Assumptions C12_scopeinfo_state.
+
+Theorem C12_scopeinfo_getstate_total :
+  forall (isdig : N -> bool) ci pn, wf_py ci = true -> wf_py pn = true -> exists s, getstate isdig ci pn = Some s.
+Proof. exact scopeinfo_getstate_total. Qed.
+Print Assumptions C12_scopeinfo_getstate_total.
+
+Example C12_example_history :
+  let c := CSet [120%N] [CMove [100%N] RFolder [101%N]; CContents [101%N; 47%N; 109%N] [49%N] (Some [])] (Some 5%N) in
+  let h := {| undo_list := [CCreate [100%N] RFolder; c]; redo_list := [CRemove [102%N] RFile] |} in
+  reopen true (close true 2 h) = Some h /\ length (undo_list h) <= 2.
+Proof. exact (conj eq_refl (le_n 2)). Qed.
+Print Assumptions C12_example_history.
